@@ -202,7 +202,16 @@ accumulatingDiff:
 			// contain additional differences. If we've
 			// accumulated differences at this level then
 			// keep them before the sub-diff.
-			subDiff := a[aCursor].diff(b[bCursor], pathNow(), options, strategy)
+			var subDiff Diff
+			if !checkOption[precisionOption](options) {
+				subDiff = a[aCursor].diff(b[bCursor], pathNow(), options, strategy)
+			} else if !a[aCursor].Equals(b[bCursor], options...) {
+				// The containers differ by more than the precision.
+				// They are diffed exactly, so that the patched element
+				// is the element of B and context lines of the
+				// following hunks match the patched document.
+				subDiff = a[aCursor].diff(b[bCursor], pathNow(), withoutPrecision(options), strategy)
+			}
 			if haveDiff() {
 				d[0].After = after()
 				d = append(d, subDiff...)
@@ -298,6 +307,16 @@ func (a jsonList) diffMergePatchStrategy(b jsonList, path Path, options []Option
 		return Diff{e}
 	}
 	return Diff{}
+}
+
+func withoutPrecision(options []Option) []Option {
+	exact := make([]Option, 0, len(options))
+	for _, o := range options {
+		if _, ok := o.(precisionOption); !ok {
+			exact = append(exact, o)
+		}
+	}
+	return exact
 }
 
 func sameContainerType(n1, n2 JsonNode, options []Option) bool {
